@@ -1,10 +1,10 @@
 package sim
 
 import (
-	"os"
 	"bytes"
 	"fmt"
 	"math/big"
+	"os"
 	"sort"
 	"strconv"
 	"strings"
